@@ -168,7 +168,7 @@ class C13(Prop):
             'a fault fired while an operation was in flight; distinct = '
             '(event kind, abstract daemon state) sequence hash')
     chunk = 150
-    REQS = ['incr', 'decr', 'reload', 'restart', 'set']
+    REQS = ['incr', 'decr', 'reload', 'restart', 'set', 'kill']
     budget = {'quick': 30, 'thorough': 600}
 
     def gen(self, rng, tier, seed):
